@@ -5,6 +5,7 @@ import (
 	"encoding/json"
 	"errors"
 	"fmt"
+	"math"
 	"strconv"
 	"strings"
 
@@ -17,7 +18,20 @@ var (
 	InvalidNetworkError    = errors.New("Invalid network")
 	InvalidScidError       = errors.New("Invalid Scid")
 	AssetOrNetworkSetError = errors.New("Either asset or network must be set")
+	InvalidAmountError     = errors.New("Invalid swap amount")
 )
+
+// maxSwapAmountSat is the largest swap amount whose millisatoshi value does not
+// overflow. Larger amounts would wrap in the msat conversions of the admission
+// checks and of the invoice amounts.
+const maxSwapAmountSat = math.MaxInt64 / 1000
+
+func validateAmount(amountSat uint64) error {
+	if amountSat > maxSwapAmountSat {
+		return InvalidAmountError
+	}
+	return nil
+}
 
 func NewInvalidLengthError(paramName string, expected, actual int) error {
 	return fmt.Errorf("Param %s is of invalid length expected: %v, actual %v", paramName, expected, actual)
@@ -54,6 +68,10 @@ func (s SwapInRequestMessage) MessageType() messages.MessageType {
 
 func (s SwapInRequestMessage) Validate(swap *SwapData) error {
 	err := validateHexString("pubkey", s.Pubkey, 33)
+	if err != nil {
+		return err
+	}
+	err = validateAmount(s.Amount)
 	if err != nil {
 		return err
 	}
@@ -225,6 +243,10 @@ type SwapOutRequestMessage struct {
 
 func (s SwapOutRequestMessage) Validate(swap *SwapData) error {
 	err := validateHexString("pubkey", s.Pubkey, 33)
+	if err != nil {
+		return err
+	}
+	err = validateAmount(s.Amount)
 	if err != nil {
 		return err
 	}
